@@ -204,6 +204,18 @@ fn run_prop(prop: &str, tier: Tier, seed: u64) -> i32 {
             props::crash::c09(&ctx);
             ctx.finish(tier.pick(100, 2000))
         }
+        "C04" => {
+            let ctx = Ctx::new(
+                "C04",
+                tier,
+                seed,
+                "fault_enumeration",
+                "two families of generated cases. (i) E1 histories with operations the engine must reject (2001 entries, >10 GiB via aliased slices, an entry >1 GiB alone and inside a batch, empty batch, topic names that do not fit the 256-byte entry header on the single and the batch path) interleaved with appends, both read APIs, counts and restarts; non-trivial = a rejected or failed operation in a history that also has a rotation or data read after a reopen. (ii) fault injection through the H1 seam: the I/O events of every append / batch append of a generated workload are enumerated by a traced run (block write, io_uring SQE, submit, flush, file create/set_len/fsync, dir fsync); the workload is re-executed once per selected (event, fault) with that event failing (EIO/ENOSPC) or, for io_uring writes, completing short; the failing call must return Err, and all later reads, appends, a full drain, a fresh-process reopen and a second drain must agree with the FIFO model in which the failed call never happened. Each evaluation = one history or one (workload, fault); non-trivial (ii) = the fault surfaced as Err and it hit a batch after that batch had sealed a block, or the failed operation was the first on its topic, or a later successful append was read back after the reopen.",
+                &["injected faults model an I/O error reported by the kernel; the data of a failed write is not on disk (short io_uring completions: the engine is told fewer bytes than were written)", "visibility of successful batches to concurrent readers is C05's subject"],
+            );
+            props::fault::c04(&ctx);
+            ctx.finish(tier.pick(60, 1000))
+        }
         other => {
             eprintln!("unknown property {}", other);
             2
